@@ -204,8 +204,20 @@ def _client_ops(client, ops, model, what, state):
       started, release = threading.Event(), threading.Event()
       targets.GATES[gate] = (started, release)
       box = {}
-      th = threading.Thread(target=lambda: box.update(a=answer(lambda: client.get_result(lf.trace(targets.gated_raise)(gate, kind, msg)))),
-                            daemon=True)
+      raw = len(op) > 3 and op[3] == 'raw'
+
+      def request():
+        lazy = lf.trace(targets.gated_raise)(gate, kind, msg)
+        if not raw:
+          return client.get_result(lazy)
+        # the way pool tasks are submitted: the handler raises through the transport instead of returning the exception
+        try:
+          return lf.pickler.loads(client.call(lazy).result())
+        except Exception as e:  # pylint: disable=broad-exception-caught
+          if 'TimeoutError' in str(e) or getattr(e, 'code', 0) == 4:
+            raise TimeoutError(str(e)) from e
+          raise RuntimeError(str(e)) from e
+      th = threading.Thread(target=lambda: box.update(a=answer(request)), daemon=True)
       th.start()
       ok = started.wait(20)
       state['shutdown'] = True
@@ -299,7 +311,8 @@ def strat(tier):
       clients[0].insert(draw(st.integers(0, len(clients[0]))), ['shutdown'])
     elif nclients == 1 and draw(st.integers(0, 3)) == 0:
       clients[0].insert(draw(st.integers(0, len(clients[0]))),
-                        ['inflight_shutdown', draw(st.sampled_from(['RuntimeError', 'ValueError', 'KeyError', 'value'])), 'resource closed'])
+                        ['inflight_shutdown', draw(st.sampled_from(['RuntimeError', 'ValueError', 'KeyError', 'value'])), 'resource closed',
+                         draw(st.sampled_from(['result', 'raw']))])
     return {'clients': clients}
   return s()
 
